@@ -10,6 +10,7 @@ import Pyunicorn.Lemmas.SurrogatesTies
 import Pyunicorn.Lemmas.SurrogatesMethod
 import Pyunicorn.Lemmas.SurrogatesCoupling
 import Pyunicorn.Lemmas.SurrogatesCouplingStep
+import Pyunicorn.Lemmas.SurrogatesWalkK
 import Pyunicorn.Generated.StructC15
 /-!
 # C15 — Surrogates preserve exactly what each method promises
@@ -64,6 +65,10 @@ Clauses of the statement and where they are:
   `coupling_fft_of_real_series_is_hermitian`, `coupling_hermitian_list_is_hermitian_function`,
   `coupling_fourier_surrogates_keep_amplitudes` (every series, every call history, **every** bin),
   `coupling_lenPhase_is_half`, `coupling_wrong_phase_count_raises`.
+* round 5: the walk kernels `_twin_surrogates_s` / `_twin_surrogates_r` statement by statement on the
+  expressions regenerated from numerics.pyx (`Model/SurrogatesWalkK.lean`): `walk_kernel_expressions`,
+  `walk_kernel_step_is_next`, `walk_kernel_s_is_walk`, `walk_kernel_r_is_walk`,
+  `walk_kernel_s_states_original_and_successor`, `walk_kernel_r_states_original_and_successor`.
 -/
 namespace Pyunicorn.Surrogates
 
@@ -377,6 +382,65 @@ theorem rp_walk_states_original_and_successor {N : Nat} {tw : List (List Nat)} (
       ∀ l ∈ ls, l.length = N ∧ (∀ i ∈ l, i < N) ∧
         (∀ i a b, l[i]? = some a → l[i+1]? = some b → Succ N tw a b) :=
   walkRep_spec (floorPick_good u hu) hw ns c
+
+/-! #### round 5: the walk kernels on the expressions of the source
+
+`Model/SurrogatesWalkK.lean` runs the two `while j < N` loops in the kernel's own `int` variables;
+every expression (34 definitions `w…S` / `w…R` of `Generated/ArithC15.lean`) is regenerated from
+numerics.pyx on every run. -/
+
+/-- the expressions of both kernels are the ones the abstract walk is written with (`rfl` against
+the regenerated definitions: `k >= N` → `k > N`, a dropped `k += 1`, `floor(random() * (n_twins))`,
+`twins_ik[rand + 1]`, … no longer build) -/
+theorem walk_kernel_expressions : walkArithS = stdWalk ∧ walkArithR = stdWalk :=
+  ⟨walkArithS_std, walkArithR_std⟩
+
+/-- one pass through the loop body of `_twin_surrogates_s` in the kernel's `int k` is `next`, for
+every table (well-formed or not), every state, every cursor, every stream of non-negative draws —
+error cases included (`none` on both sides) -/
+theorem walk_kernel_step_is_next (N : Nat) (tw : List (List Nat)) (u : Nat → Rat)
+    (hu : ∀ c, 0 ≤ u c) (k c : Nat) :
+    nextK walkArithS (N : Int) tw u (k : Int) c
+      = (next N tw (floorPick u) k c).map (fun p => ((p.1 : Int), p.2)) := by
+  rw [walkArithS_std]; exact nextK_std N tw u hu k c
+
+/-- `_twin_surrogates_s` (loop over the series, `while j < N` with its counter `j`, loads, stores,
+restart loop) on the source's expressions = the abstract `walkRows` -/
+theorem walk_kernel_s_is_walk (N : Nat) (u : Nat → Rat) (hu : ∀ c, 0 ≤ u c)
+    (tws : List (List (List Nat))) (c : Nat) :
+    walkKernelS N u tws c = (walkRows N (floorPick u) tws c).map castRows :=
+  walkKernelS_eq N u hu tws c
+
+/-- `_twin_surrogates_r` on the source's expressions = the abstract `walkRep` -/
+theorem walk_kernel_r_is_walk (N : Nat) (tw : List (List Nat)) (u : Nat → Rat)
+    (hu : ∀ c, 0 ≤ u c) (ns c : Nat) :
+    walkKernelR N tw u ns c = (walkRep N tw (floorPick u) ns c).map castRows :=
+  walkKernelR_eq N tw u hu ns c
+
+/-- hence the walk clause for the loop-level kernel: the `while` loop terminates within its `N`
+passes, never leaves the data, and every surrogate is `N` original states with allowed transitions -/
+theorem walk_kernel_s_states_original_and_successor {N : Nat} (u : Nat → Rat)
+    (hu : ∀ c, 0 ≤ u c ∧ u c < 1) (tws : List (List (List Nat)))
+    (hw : ∀ tw ∈ tws, WfTwins N tw) (c : Nat) :
+    ∃ (ls : List (List Nat)) (c' : Nat), walkKernelS N u tws c = some (castRows (ls, c')) ∧
+      List.Forall₂ (fun l tw => l.length = N ∧ (∀ i ∈ l, i < N) ∧
+        (∀ i a b, l[i]? = some a → l[i+1]? = some b → Succ N tw a b)) ls tws := by
+  obtain ⟨ls, c', h, hs⟩ := walk_states_original_and_successor u hu tws hw c
+  exact ⟨ls, c', by rw [walk_kernel_s_is_walk N u (fun c => (hu c).1), h]; rfl, hs⟩
+
+theorem walk_kernel_r_states_original_and_successor {N : Nat} {tw : List (List Nat)}
+    (u : Nat → Rat) (hu : ∀ c, 0 ≤ u c ∧ u c < 1) (hw : WfTwins N tw) (ns c : Nat) :
+    ∃ (ls : List (List Nat)) (c' : Nat), walkKernelR N tw u ns c = some (castRows (ls, c')) ∧
+      ls.length = ns ∧
+      ∀ l ∈ ls, l.length = N ∧ (∀ i ∈ l, i < N) ∧
+        (∀ i a b, l[i]? = some a → l[i+1]? = some b → Succ N tw a b) := by
+  obtain ⟨ls, c', h, hl, hs⟩ := rp_walk_states_original_and_successor u hu hw ns c
+  exact ⟨ls, c', by rw [walk_kernel_r_is_walk N tw u (fun c => (hu c).1), h]; rfl, hl, hs⟩
+
+/-- the loop-level kernel on a table with a twin pair: jump to the future of a twin (2 → 0+1),
+move on, restart at the end — the same walk as the abstract example at the end of this file -/
+example : walkKernelS 4 (fun c => [(5 : Rat) / 8, 0, 7 / 8, 3 / 8, 1 / 8].getD c 0) [[[2], [], [0], []]] 0
+    = some ([[2, 1, 2, 3]], 4) := by decide +kernel
 
 /-- the tables the twin search produces are well-formed, so the walk theorems
 apply to them: kernel after kernel, as `twin_surrogates` composes them. -/
